@@ -107,6 +107,12 @@ def run_faulted(R, text, options, event, k, mech, order, driver='api', flags=Non
             res['fired'] = tr.fired
             res['unraisable'] = unr.n
             if exc is None:
+                if tr.fired is not None and unr.n == 0:
+                    # the interrupt was raised inside a package frame, the interpreter reported nothing as
+                    # unraisable, and yet count() returned normally: package code discarded the user's interrupt
+                    res.update(status='swallowed', actions=canon.canon_actions(E.erecord),
+                               marked=bool(getattr(E, 'intr_logged', False)))
+                    return res
                 res.update(status='completed')
                 return res
             res['count_exc'] = type(exc).__name__
@@ -123,17 +129,34 @@ def run_faulted(R, text, options, event, k, mech, order, driver='api', flags=Non
             opts[name] = name in flags
         out = None
         exc = None
-        with simfs.mounted(R.droop.profile, fs):
+        # observe (from outside) whether count() itself let an exception out: wrap the public method
+        ElectionCls = R.droop.election.Election
+        orig_count = ElectionCls.__dict__.get('count')
+        seen = {}
+
+        def watched_count(self_, *a, **kw):
             try:
-                tr.install()
-                out = R.Droop.main(opts)
-            except BudgetExceeded:
-                res.update(status='budget')
-                return res
-            except BaseException as e:      # pylint: disable=broad-except
-                exc = e
-            finally:
-                tr.remove()
+                return orig_count(self_, *a, **kw)
+            except BaseException as e2:     # pylint: disable=broad-except
+                seen['exc'] = type(e2).__name__
+                raise
+        if orig_count is not None:
+            ElectionCls.count = watched_count
+        try:
+            with simfs.mounted(R.droop.profile, fs):
+                try:
+                    tr.install()
+                    out = R.Droop.main(opts)
+                except BudgetExceeded:
+                    res.update(status='budget')
+                    return res
+                except BaseException as e:      # pylint: disable=broad-except
+                    exc = e
+                finally:
+                    tr.remove()
+        finally:
+            if orig_count is not None:
+                ElectionCls.count = orig_count
         res['fired'] = tr.fired
         res['unraisable'] = unr.n
         res['flags'] = sorted(flags)
@@ -148,10 +171,15 @@ def run_faulted(R, text, options, event, k, mech, order, driver='api', flags=Non
                        line_text=line_text)
             return res
         marked = isinstance(out, str) and 'interrupt' in out.lower()
-        if not marked and E is not None and not getattr(E, 'intr_logged', False) and unr.n:
-            # the interpreter swallowed the interrupt (generator finalisation); the count completed
-            res.update(status='completed')
-            return res
+        if not marked and E is not None and not getattr(E, 'intr_logged', False):
+            if unr.n:
+                # the interpreter swallowed the interrupt (generator finalisation); the count completed
+                res.update(status='completed')
+                return res
+            acts = canon.canon_actions(E.erecord)
+            if 'exc' not in seen and acts and '"s:tag": "end"' in acts[-1]:
+                res.update(status='swallowed', actions=acts, marked=False, main_out=out)
+                return res
         res['status'] = 'interrupted'
         res['main_out'] = out
         # what main should have returned: the enabled renderings of that election, in main's order
@@ -180,6 +208,15 @@ def _strip_marker_lines(lines):
 def check(ref, res):
     """oracle: list of violations (dicts with class, what, ...) of one interrupted execution"""
     v = []
+    if res.get('status') == 'swallowed':
+        acts = res.get('actions') or []
+        if acts and '"s:tag": "end"' in acts[-1] and not res.get('marked'):
+            v.append(dict(cls='interrupt-swallowed', what=res['driver'],
+                          msg='SIGINT delivered inside package code was discarded: the count ran to completion '
+                              'and its output is the complete, unmarked record',
+                          frame=("%s:%s" % tuple(res['fired']['site'][:2])) if res.get('fired') else None,
+                          line_text=None))
+        return v
     if res.get('status') != 'interrupted':
         return v
     if res['driver'] == 'main' and 'main_exc' in res:
@@ -194,6 +231,10 @@ def check(ref, res):
         v.append(dict(cls='not-prefix', what='record', index=bad, len_i=len(I), len_f=len(F),
                       got=I[bad][:400] if bad < len(I) else None,
                       want=F[bad][:400] if bad < len(F) else None))
+    nmark = len(res['actions']) - len(I)
+    if nmark > 1:
+        v.append(dict(cls='marker-duplicated', what='record', msg='%d interrupt markers logged (renderers %s)' % (
+            nmark, ",".join(res.get('order') or res.get('flags') or [])), frame=None, line_text=None))
     rends = {}
     for r in res['renderings']:
         if 'exc' in r:
@@ -418,6 +459,15 @@ def run_case(R, seed, idx, tier, only=None):
                 probe('swallowed_unraisable')
             else:
                 probe('not_reached')
+            return res
+        if st == 'swallowed':
+            probe('swallowed_by_package')
+            fired = res['fired']
+            for viol in check(ref_, res):
+                viol = dict(viol)
+                viol.update(idx=idx, event=event, k=k, mech=mech, order=list(order), driver=driver,
+                            flags=sorted(flags) if flags else None, site=list(fired['site']), header=fired['header'])
+                out['viol'].append(viol)
             return res
         if st != 'interrupted':
             probe('faulted_' + str(st))
